@@ -158,6 +158,8 @@ pub struct Sim {
     pub partitioned: bool,
     /// keep every parked disk task parked (no gate is released by the scheduler)
     pub hold_gates: bool,
+    /// why the last `settle` gave up: true = the logical step budget ran out (no quiescence), false = wall clock / other
+    pub settle_ran_out_of_steps: bool,
 }
 
 pub fn quic_addr(port: u16) -> Multiaddr {
@@ -186,6 +188,7 @@ impl Sim {
             watch_log: vec![],
             partitioned: false,
             hold_gates: false,
+            settle_ran_out_of_steps: false,
         }
     }
 
@@ -477,8 +480,13 @@ impl Sim {
         let mut spins_since_progress = 0u32;
         let mut quiet_advanced_ms = 0u64;
         let mut budget = 400_000u64;
+        self.settle_ran_out_of_steps = false;
         loop {
-            if budget == 0 || wall.elapsed() > std::time::Duration::from_secs(90) {
+            if budget == 0 {
+                self.settle_ran_out_of_steps = true;
+                return false;
+            }
+            if wall.elapsed() > std::time::Duration::from_secs(90) {
                 return false;
             }
             budget -= 1;
